@@ -22,7 +22,7 @@ from common import (KERNEL_TB, REPO, Driver, Report, build_driver, driver_binary
                     scan_forbidden)
 
 PROP = "C01"
-BV_DRIVER = ("bvdriver", "ExtractBv", ["bvmodel"], ["Model/Build.vo", "Model/PyPrelude.vo", "Model/Ast.vo", "Model/Rewrite.vo", "Model/Solve.vo", "Model/Frontend.vo", "Model/Numeral.vo", "Model/Annot.vo", "Model/HashCons.vo", "Model/Pickle.vo", "Model/Z3Stack.vo", "Model/Str.vo", "Model/Tls.vo", "Model/AbsInt.vo", "Model/Balance.vo", "Model/Replace.vo", "Model/Track.vo", "Gen/BvConcrete.vo"])
+BV_DRIVER = ("bvdriver", "ExtractBv", ["bvmodel"], ["Model/Build.vo", "Model/PyPrelude.vo", "Model/Ast.vo", "Model/Rewrite.vo", "Model/Solve.vo", "Model/Frontend.vo", "Model/Numeral.vo", "Model/Annot.vo", "Model/HashCons.vo", "Model/Pickle.vo", "Model/Z3Stack.vo", "Model/Str.vo", "Model/Tls.vo", "Model/AbsInt.vo", "Model/Balance.vo", "Model/Replace.vo", "Model/Track.vo", "Model/CompCache.vo", "Gen/BvConcrete.vo"])
 
 
 # ------------------------------------------------------------------------------------------------
